@@ -14,7 +14,8 @@ for pid in ids:
     t0 = time.time()
     extra = json.load(open(f"{d}/meta.json")).get("also_run", []) if os.path.exists(f"{d}/meta.json") else []
     verdicts = {}
-    for prop in [pid] + extra:
+    base = pid.split("-")[0]
+    for prop in [base] + extra:
         p = subprocess.run(["./check", prop, "--tier", "quick"], cwd="/verif", capture_output=True, text=True)
         viol = [l for l in p.stdout.splitlines() if l.startswith("VIOLATION")]
         verdicts[prop] = {"exit": p.returncode, "violations": len(viol), "first": viol[0] if viol else None,
@@ -32,5 +33,5 @@ for pid in ids:
     meta = json.load(open(meta_path)) if os.path.exists(meta_path) else {}
     meta["check_results"] = verdicts
     json.dump(meta, open(meta_path, "w"), indent=1)
-    v = verdicts[pid]
+    v = verdicts[base]
     print(f"{pid}: exit={v['exit']} violations={v['violations']} kind={v.get('kind')} {v.get('what','')[:140]}  ({time.time()-t0:.0f}s)")
